@@ -16,6 +16,12 @@ def _ival(t):
         return None
     if t[0] == "const" and isinstance(t[1], int):
         return t[1]
+    if t[0] == "discr" and t[1][0] == "agg" and isinstance(t[1][1], tuple) and t[1][1][0] == "adt" and _ADTS is not None:
+        # the discriminant of a variant built on the spot (`ident as u8` with ident bound to StreamIdent::Out)
+        for v in (_ADTS.get(t[1][1][1]) or {}).get("variants", []):
+            if v["name"] == t[1][1][2] and "discr" in v:
+                return v["discr"]
+        return None
     if t[0] == "field" and t[2] == "0" and t[1][0] == "bin":
         t = t[1]
     if t[0] == "bin":
@@ -26,7 +32,12 @@ def _ival(t):
     return None
 
 
+_ADTS = None
+
+
 def _ident_bits(prog):
+    global _ADTS
+    _ADTS = prog.adts
     return {v["name"]: v["discr"] for v in prog.adts[SI]["variants"]}
 
 
